@@ -36,7 +36,8 @@ META = {
     "budget_s": {"quick": 120, "thorough": 900},
 }
 
-KINDS = ("dense", "dense1", "mult8", "negs", "big", "str", "strodd", "digits", "mixed", "mixed2", "exotic", "exotic2")
+KINDS = ("dense", "dense1", "mult8", "negs", "big", "str", "strodd", "digits", "mixed", "mixed2", "exotic", "exotic2",
+         "collapse")
 # digits of other scripts are decimal digits (int() reads them); superscripts are 'digits' for str.isdigit but not
 # for int(): names made of them are not integer-like
 EXOTIC_POOL = ["\u00b2", "1", "2", "\u0663", "\u00b34", "5", "6", "7", "8", "9", "10", "11", "12", "13", "14", "15"]
@@ -47,8 +48,37 @@ MIXED2_POOL = [1, 2, "x", 3, 4, "y", 5, 6, 7, "w", 8, 9, 10, "z", 11, 12]
 
 
 @st.composite
+def collapse_datasets(draw, max_n, max_m):
+    """several spellings of one integer (7, "7", "007") always tied together in one bucket: distinct elements while
+    the dataset holds strings (the name "a" is there), ONE element as soon as every name is integer-like (from the
+    start, or after "a" is removed) - the bucket then shrinks, which may end a tie"""
+    n = draw(st.sampled_from(list(range(1, max_n + 1))))
+    with_a = draw(st.booleans())
+    base = list(range(1, n + 1)) + (["a"] if with_a else [])
+    spell = {}
+    for k in range(1, n + 1):
+        forms = [str(k), "0" + str(k), "00" + str(k)] if with_a else [k, str(k), "0" + str(k)]
+        nb = draw(st.sampled_from([1, 1, 2, 3]))
+        spell[k] = list(draw(st.permutations(forms)))[:nb]
+    m = draw(st.sampled_from(list(range(1, max_m + 1))))
+    rankings = []
+    for _ in range(m):
+        mask = draw(st.lists(st.integers(0, 3), min_size=len(base), max_size=len(base)))
+        dom = [e for e, k in zip(base, mask) if k > 0]
+        r = draw(gen.weak_order_of(dom))
+        rankings.append([[f for e in b for f in (spell[e] if e != "a" else ["a"])] for b in r])
+    if with_a and not any("a" in b for r in rankings for b in r):
+        rankings.append([["a"]])
+    if not any(b for r in rankings for b in r):
+        rankings[0] = [list(spell[1])]
+    return {"rankings": rankings, "shape": "mixed", "kind": "collapse"}
+
+
+@st.composite
 def c16_datasets(draw, max_n=7, max_m=5):
     kind = draw(st.sampled_from(KINDS))
+    if kind == "collapse":
+        return draw(collapse_datasets(max_n, max_m))
     if kind in ("digits", "mixed", "mixed2", "exotic", "exotic2"):
         pool = {"digits": DIGIT_POOL, "mixed": MIXED_POOL, "mixed2": MIXED2_POOL, "exotic": EXOTIC_POOL,
                 "exotic2": EXOTIC2_POOL}[kind]
